@@ -47,11 +47,11 @@ RefEff(u, kn, c) == IF Supplied(u, c) THEN [src |-> "user", v |-> UserVals[c][u[
                     ELSE IF kn THEN [src |-> "table", v |-> TableVals[c]]
                     ELSE [src |-> "missing", v |-> 0]
 \* what the (possibly wrong) design uses: u = current user values, u0 = those given at construction
-DesignEff(u, u0, kn, c) ==
-    CASE Variant = "all_or_nothing" ->
+DesignEffV(var, u, u0, kn, c) ==
+    CASE var = "all_or_nothing" ->
              IF \A d \in Coeffs : Supplied(u, d) THEN RefEff(u, kn, c) ELSE RefEff([d \in Coeffs |-> 0], kn, c)
-      [] Variant = "table_wins" -> IF kn THEN RefEff([d \in Coeffs |-> 0], kn, c) ELSE RefEff(u, kn, c)
-      [] Variant = "ctor_only"  -> RefEff(u0, kn, c)
+      [] var = "table_wins" -> IF kn THEN RefEff([d \in Coeffs |-> 0], kn, c) ELSE RefEff(u, kn, c)
+      [] var = "ctor_only"  -> RefEff(u0, kn, c)
       [] OTHER -> RefEff(u, kn, c)
 
 Pow2R(k) == IF k >= 0 THEN <<Pow(2, k), 1>> ELSE <<1, Pow(2, -k)>>
@@ -61,10 +61,11 @@ MixAt(e, l) == LET x == Pow2R(e["s"].v)          \* sqrt(A0)
                    y == Pow2R(LawExp(e, l))      \* sqrt(Ad)
                    h == RDiv(RMul(x, y), RAdd(x, y))
                IN  RMul(h, h)
-Result(u, u0, kn) ==
-    LET e == [c \in Coeffs |-> DesignEff(u, u0, kn, c)]
+ResultV(var, u, u0, kn) ==
+    LET e == [c \in Coeffs |-> DesignEffV(var, u, u0, kn, c)]
     IN  IF \E c \in Coeffs : e[c].src = "missing" THEN [st |-> "rejected", eff |-> e, prof |-> <<>>]
         ELSE [st |-> "ok", eff |-> e, prof |-> [l \in 1..NL |-> MixAt(e, l)]]
+Result(u, u0, kn) == ResultV(Variant, u, u0, kn)
 
 Nil == [st |-> "none", eff |-> <<>>, prof |-> <<>>]
 Init == /\ user \in [Coeffs -> 0..NV] /\ known \in BOOLEAN
@@ -100,6 +101,15 @@ AtMostLocalLaw == Valid => \A l \in 1..NL :
 EvalIsFunctional == Evaluated => out = Result(user, user, known)
 FitsInv == Valid => \A l \in 1..NL : Fits(out.prof[l])
 
+\* WITNESS: a reachable evaluation at which a wrong design gives a profile above the REQUESTED deep value / uses another
+\* control value than the one in force (the RF_PowerLaw_<variant>.cfg runs show the same as counterexamples)
+WrongDesigns == {"all_or_nothing", "table_wins", "ctor_only"}
+BreaksDeep(var) == LET r == ResultV(var, user, atctor, known)
+                   IN  r.st = "ok" /\ Ref("s").src # "missing" /\ \E l \in 1..NL : ~RLe(r.prof[l], Pow4R(Ref("s").v))
+BreaksInForce(var) == \E c \in Coeffs : ResultV(var, user, atctor, known).eff[c] # Ref(c)
 Emit == (Export /\ Evaluated /\ nw = MaxWrites) =>
-    PrintT(<<"PVEC", ToJson([start |-> start, known |-> known, log |-> log])>>)
+    /\ PrintT(<<"PVEC", ToJson([start |-> start, known |-> known, log |-> log])>>)
+    /\ \A var \in WrongDesigns :
+         /\ IF BreaksDeep(var) THEN PrintT(<<"WITNESS", ToJson([variant |-> var, inv |-> "AtMostDeepValue", user |-> user])>>) ELSE TRUE
+         /\ IF BreaksInForce(var) THEN PrintT(<<"WITNESS", ToJson([variant |-> var, inv |-> "ControlValuesInForce", user |-> user])>>) ELSE TRUE
 =============================================================================
